@@ -13,8 +13,81 @@ use std::sync::mpsc;
 use std::time::Duration;
 
 type K = usize;
-type N = i64;
+type N = Tracked;
 type E = i64;
+
+// Node payload that counts its own drops (C19).  Clones and deserialised values are untracked (id 0).
+static NEXT_ID: std::sync::atomic::AtomicUsize = std::sync::atomic::AtomicUsize::new(1);
+static DROPS: std::sync::Mutex<Vec<usize>> = std::sync::Mutex::new(Vec::new());
+
+#[derive(Debug)]
+pub struct Tracked {
+    pub v: i64,
+    pub id: usize,
+}
+
+impl Tracked {
+    pub fn new(v: i64) -> Self {
+        let id = NEXT_ID.fetch_add(1, std::sync::atomic::Ordering::SeqCst);
+        let mut d = DROPS.lock().unwrap_or_else(|e| e.into_inner());
+        if d.len() <= id {
+            d.resize(id + 1, 0);
+        }
+        Tracked { v, id }
+    }
+    pub fn drops_of(id: usize) -> usize {
+        let d = DROPS.lock().unwrap_or_else(|e| e.into_inner());
+        d.get(id).copied().unwrap_or(0)
+    }
+}
+impl Clone for Tracked {
+    fn clone(&self) -> Self {
+        Tracked { v: self.v, id: 0 }
+    }
+}
+impl Drop for Tracked {
+    fn drop(&mut self) {
+        if self.id > 0 {
+            let mut d = DROPS.lock().unwrap_or_else(|e| e.into_inner());
+            if d.len() <= self.id {
+                d.resize(self.id + 1, 0);
+            }
+            d[self.id] += 1;
+        }
+    }
+}
+impl PartialEq for Tracked {
+    fn eq(&self, o: &Self) -> bool {
+        self.v == o.v
+    }
+}
+impl Eq for Tracked {}
+impl PartialOrd for Tracked {
+    fn partial_cmp(&self, o: &Self) -> Option<std::cmp::Ordering> {
+        Some(self.v.cmp(&o.v))
+    }
+}
+impl Ord for Tracked {
+    fn cmp(&self, o: &Self) -> std::cmp::Ordering {
+        self.v.cmp(&o.v)
+    }
+}
+impl std::fmt::Display for Tracked {
+    fn fmt(&self, f: &mut std::fmt::Formatter) -> std::fmt::Result {
+        write!(f, "{}", self.v)
+    }
+}
+impl serde::Serialize for Tracked {
+    fn serialize<S: serde::Serializer>(&self, s: S) -> Result<S::Ok, S::Error> {
+        s.serialize_i64(self.v)
+    }
+}
+impl<'de> serde::Deserialize<'de> for Tracked {
+    fn deserialize<D: serde::Deserializer<'de>>(d: D) -> Result<Self, D::Error> {
+        let v = i64::deserialize(d)?;
+        Ok(Tracked { v, id: 0 })
+    }
+}
 
 fn us(v: &Value) -> usize {
     v.as_u64().expect("usize") as usize
